@@ -41,6 +41,16 @@ def codecStep (args : List String) : String :=
         "ok " ++ joinC ((readChunks chunks).map hexOf)
       | none => "bad-op"
     | _, _ => "bad-op"
+  | "http" :: rest =>
+    -- one exchange over the HTTP transport: the request and the reply each arrive whole, whatever their length and
+    -- whether or not net/http announced it (chunked bodies); a side that configured a size limit refuses what exceeds it
+    let geti := fun k => (findStr k rest).bind (·.toNat?)
+    match geti "maxs", geti "maxc", geti "reqlen", geti "resplen" with
+    | some ms, some mc, some rl, some pl =>
+      if !(ms == 0 || rl ≤ ms) then "err"
+      else if !(mc == 0 || pl ≤ mc) then "err"
+      else "ok intact"
+    | _, _, _, _ => "bad-op"
   | "ws" :: rest =>
     match (findStr "writers" rest).bind (·.toNat?), (findStr "each" rest).bind (·.toNat?) with
     | some w, some e => s!"ok received={w * e} intact={w * e} order=ok"
